@@ -573,9 +573,16 @@ func (e *c09Env) split(r c09R, key []byte) {
 	newID := e.cluster.AllocID()
 	peerIDs := e.cluster.AllocIDs(len(r.meta.Peers))
 	lead := peerIDs[e.rng.Intn(len(peerIDs))]
-	e.cluster.SplitRaw(r.meta.Id, newID, e.enc(key), peerIDs, lead)
+	kind := "split"
+	if e.rng.Intn(5) < 2 {
+		// TiKV's default: the original region keeps the right half, the new region gets the left half
+		e.cluster.VerifC09SplitRightDerive(r.meta.Id, newID, e.enc(key), peerIDs, lead)
+		kind = "split-right-derive"
+	} else {
+		e.cluster.SplitRaw(r.meta.Id, newID, e.enc(key), peerIDs, lead)
+	}
 	e.pool = append(e.pool, key)
-	e.topoDone("split %d new %d at %s", r.meta.Id, newID, c09hx(key))
+	e.topoDone("%s %d new %d at %s", kind, r.meta.Id, newID, c09hx(key))
 }
 func (e *c09Env) topo() {
 	if e.halted() {
@@ -1324,6 +1331,33 @@ func (e *c09Env) seqMany() {
 	}
 }
 
+// more cache-missing ranges than fit into one PD request (16*128 = 2048): 2100-2300 tiny ranges over three regions,
+// the ranges beyond the 2048th reach into a region that the first answer does not return
+func (e *c09Env) seqWide() {
+	e.realistic = true
+	e.pdw.staleP = 0
+	e.truth()
+	n := 2200 + e.rng.Intn(100)
+	keyOf := func(i int) []byte { return []byte{byte('a' + i/200), byte(1 + i%200)} }
+	b2 := 2110 + e.rng.Intn(30) // the third region starts after the 2048th range of every chunk sent below
+	rs := e.regions()
+	e.split(rs[len(rs)-1], keyOf(300+e.rng.Intn(1000)))
+	rs = e.regions()
+	e.split(rs[len(rs)-1], keyOf(b2))
+	var krs []router.KeyRange
+	for i := 0; i < n; i++ {
+		k := keyOf(i)
+		krs = append(krs, router.KeyRange{StartKey: k, EndKey: append(append([]byte{}, k...), 0)})
+	}
+	e.opBatch(krs, false)
+	e.opBatch(krs[len(krs)-300:], false)
+	e.opClear()
+	e.opBatch(krs[50:], e.rng.Intn(2) == 0)
+	e.opClear()
+	e.opLocate(keyOf(0)) // the first region cached: fewer than 2048 ranges are left for PD
+	e.opBatch(krs, false)
+}
+
 // ---------------------------------------------------------------- unit-level differential (merger, rangesAfterKey, gap check)
 func (e *c09Env) fakeRegion(id uint64, s, t []byte) *Region {
 	r := &Region{meta: &metapb.Region{Id: id, StartKey: s, EndKey: t, RegionEpoch: &metapb.RegionEpoch{Version: 1, ConfVer: 1},
@@ -1513,6 +1547,8 @@ func c09RunSeq(w *bufio.Writer, class string, seed int64, nops int) {
 		e.seqF07()
 	case "many":
 		e.seqMany()
+	case "wide":
+		e.seqWide()
 	case "unit":
 		e.seqUnit(40)
 	}
@@ -1596,7 +1632,7 @@ func VerifC09Main(args []string) int {
 	plan := []struct {
 		class string
 		n     int
-	}{{"rand", 600 * scale}, {"real", 600 * scale}, {"f07", 250 * scale}, {"bkt", 150 * scale}, {"unit", 120 * scale}, {"many", 6 * scale}}
+	}{{"rand", 600 * scale}, {"real", 600 * scale}, {"f07", 250 * scale}, {"bkt", 150 * scale}, {"unit", 120 * scale}, {"many", 6 * scale}, {"wide", 3 * scale}}
 	for ci, p := range plan {
 		for i := 0; i < p.n; i++ {
 			c09RunSeq(w, p.class, seed*1000000+int64(ci)*100000+int64(i), -1)
